@@ -75,7 +75,7 @@ def printer(chk, facts):
         n += 1
         chk.ob(rule_c, lab, bool(hit), "child %s is printed (%s)" % (lab, sorted({s[0] for s in hit}) or "never: it disappears from the printed policy"),
                where=f.where(hit[0][3] if hit else None), fn=f.name, key="%s:%s" % (rule_c, lab), sample={"child": lab, "modes": sorted({s[0] for s in hit})})
-    chk.floor(rule_c, "children of ExprNoExt", n, 40)
+    chk.floor(rule_c, "children of ExprNoExt", n, 46)
     # operand order: first child printed before the later ones
     for v in r["variants"]:
         fl = [x[0] for x in v["fields"] if any(m in x[1] for m in MARK)]
@@ -225,7 +225,7 @@ def escape(chk, facts):
         chk.ob(rule, "%s@L%s" % (sorted(src)[0], t[1].get("l")), escaped or guarded,
                "program string %s is written %s" % (sorted(src), "through escape_debug" if escaped else ("bare under is_normalized_ident" if guarded else "BARE and unescaped: a name that is not an identifier breaks the printed policy")),
                where=f.where(t[1].get("l")), fn=f.name, key="%s:%s" % (rule, sorted(src)[0]), sample={"string": sorted(src), "escaped": escaped, "ident_guard": guarded})
-    chk.floor(rule, "program strings written", n, 4)
+    chk.floor(rule, "program strings written", n, 8)
 
 
 UNICODE_CHAR_PREDICATES = ("is_alphabetic", "is_alphanumeric", "is_numeric", "is_lowercase", "is_uppercase", "is_whitespace", "is_control")
